@@ -9,8 +9,10 @@ Every variant is rendered to class SOURCE TEXT, executed in a fresh module regis
 constructor + `Serializer`).  The Lean driver runs `Sem/Elaborate.elabClass` (correspondence) and
 `Spec/Meaning.fieldMeaning` (documented meaning) on the same variants.
 """
+import importlib.util
 import itertools
 import json
+import os
 import sys
 import types
 import typing
@@ -220,6 +222,8 @@ def ev_kind(sp):
         return "field_inst"
     if s in ("builtin", "bareBuiltin", "dictBare", "pep585", "dict585"):
         return "plain"
+    if s in ("pipe", "union") and same_type_obj(sp["x"], sp["y"]):
+        return ev_kind(sp["x"])          # `Union[bool, bool]` / `bool | bool` IS `bool`
     if s == "pipe":
         kx, ky = ev_kind(sp["x"]), ev_kind(sp["y"])
         return "typing" if "typing" in (kx, ky) else "plain"
@@ -466,7 +470,7 @@ def field_source(f):
     kw = dflt_text(dflt) if dflt and dflt["how"] in ("kw", "kwF") else None
     text = render(f["ty"], kw)
     if f["mode"] == "ann":
-        line = f"{f['name']}: {text}"
+        line = f"{f['name']}: {text!r}" if f.get("quoted") else f"{f['name']}: {text}"
         if dflt and dflt["how"] in ("eq", "eqF"):
             line += " = " + dflt_text(dflt)
         return line, text
@@ -501,18 +505,36 @@ def factory_for(m, rng):
     return None
 
 
+def _indent(text, n):
+    return "\n".join((" " * n + l) if l.strip() else l for l in text.split("\n"))
+
+
 def variant_source(v):
-    lines = []
-    if v["future"]:
-        lines.append("from __future__ import annotations")
-    lines.append(PRELUDE)
-    lines.append("class K(Structure):")
+    """source text of the module that declares class K.  Scope of the class statement relative to the names its
+    annotations use (typedpy / typing imports, factory helpers): 'module' - all at module level; 'function' - names
+    and class inside one function; 'nested' - the same, one function deeper; 'enclosing' - names are locals of the
+    outer function, the class statement is in the inner one."""
+    scope = v.get("scope", "module")
+    body = ["class K(Structure):"]
     opt = [f["name"] for f in v["fields"] if f.get("inOptional")]
     for f in v["fields"]:
-        lines.append("    " + field_source(f)[0])
+        body.append("    " + field_source(f)[0])
     if opt:
-        lines.append(f"    _optional = {opt!r}")
-    return "\n".join(lines) + "\n"
+        body.append(f"    _optional = {opt!r}")
+    body = "\n".join(body)
+    head = "from __future__ import annotations\n" if v["future"] else ""
+    if scope == "module":
+        return head + PRELUDE + "\n" + body + "\n"
+    if scope == "function":
+        return (head + "def build():\n" + _indent(PRELUDE, 4) + "\n" + _indent(body, 4)
+                + "\n    return K\n\n\nK = build()\n")
+    if scope == "nested":
+        return (head + "def outer():\n    def build():\n" + _indent(PRELUDE, 8) + "\n" + _indent(body, 8)
+                + "\n        return K\n    return build()\n\n\nK = outer()\n")
+    if scope == "enclosing":
+        return (head + "def outer():\n" + _indent(PRELUDE, 4) + "\n    def build():\n" + _indent(body, 8)
+                + "\n        return K\n    return build()\n\n\nK = outer()\n")
+    raise ValueError(scope)
 
 
 # ------------------------------------------------------------------ features of a spelling (finding keys)
@@ -550,6 +572,12 @@ def features(v, f, ann_len):
     d = f.get("dflt")
     if d and d["how"] == "kw" and not _truthy(d["v"]):
         out.append("falsy-default-kw")
+    if f["mode"] == "ann" and f.get("quoted") and v["future"]:
+        out.append("quoted-under-future-import")        # stored as the text of a string literal: evaluates to a str
+    elif f["mode"] == "ann" and f.get("quoted") and ann_len >= 50:
+        out.append("quoted-annotation-50")              # the 50-character guard (modules without the future import)
+    if f.get("unresolved") and v.get("scope") == "enclosing":
+        out.append("string-annotation-enclosing-scope")  # names of an enclosing function are not visible to eval
     res = []
     for x in out:
         if x not in res:
@@ -715,6 +743,16 @@ def gen_case(rng, tier, ci, meanings=None, extra_tys=None, cap=None, defaults=No
             seen.add(key)
             variants.append({"future": future, "fields": [per_field[i][j] for i, j in enumerate(combo)]})
     variants = variants[: (cap or (16 if tier == "quick" else 40))]
+    # string annotations x scope of the class statement: every variant but the reference is placed at module level,
+    # inside a function that also defines the names, one function deeper, or below the function that defines them;
+    # some write their annotations as string literals
+    for var in variants[1:]:
+        r = rng.random()
+        var["scope"] = "module" if r < 0.6 else "function" if r < 0.8 else "nested" if r < 0.9 else "enclosing"
+        if rng.random() < (0.04 if var["future"] else 0.15):
+            var["fields"] = [dict(f, quoted=True) if f["mode"] == "ann" and rng.random() < 0.7 else f
+                             for f in var["fields"]]
+        mark_unresolved(var)
     # shared value stream, from the documented meaning
     decls = [meaning_decl(m) for m in meanings]
     ref = variants[0]["fields"]
@@ -1049,15 +1087,74 @@ def struct_oracle(case, impl):
     return fails
 
 
+def _find_code(code, name):
+    for c in code.co_consts:
+        if isinstance(c, types.CodeType):
+            if c.co_name == name:
+                return c
+            r = _find_code(c, name)
+            if r is not None:
+                return r
+    return None
+
+
+def mark_unresolved(var):
+    """in 'enclosing' scope: which string annotations mention a name that is neither a builtin nor captured by the
+    function containing the class statement (Python's own compiler decides: co_freevars of that function)"""
+    if var.get("scope") != "enclosing":
+        return var
+    import ast
+    import builtins
+    build = _find_code(compile(variant_source(var), "<c13>", "exec"), "build")
+    free = set(build.co_freevars)
+    fields = []
+    for f in var["fields"]:
+        f = {k: x for k, x in f.items() if k != "unresolved"}
+        if f["mode"] == "ann" and (var["future"] or f.get("quoted")):
+            names = {n.id for n in ast.walk(ast.parse(field_source(f)[1], mode="eval")) if isinstance(n, ast.Name)}
+            if any(n not in free and not hasattr(builtins, n) for n in names):
+                f["unresolved"] = True
+        fields.append(f)
+    var["fields"] = fields
+    return var
+
+
+def scope_cases(rng, tier):
+    """Directed stream: (evaluated annotation | future import | quoted annotation | quoted under the future import)
+    x (module level | inside a function defining the names | nested one deeper | names in the enclosing function)
+    for a few spellings of small classes; modules written to disk and imported; reference = evaluated annotations at
+    module level."""
+    dg = gen.DeclGen(rng, max_depth=1)
+    cases = []
+    for _ in range(2 if tier == "quick" else 6):
+        ms = [gen_meaning(rng, dg, 1), gen_meaning(rng, dg, 0)]
+        c = gen_case(rng, tier, len(cases), meanings=ms, cap=10)
+        bases = [v for v in c["variants"] if not v["future"]]
+        bases = [bases[0]] + rng.sample(bases[1:], min(2, len(bases) - 1))
+        vs = [c["variants"][0]]
+        for b in bases:
+            for scope in ("module", "function", "nested", "enclosing"):
+                for future, quoted in ((False, False), (True, False), (False, True), (True, True)):
+                    if b is bases[0] and scope == "module" and not future and not quoted:
+                        continue
+                    fields = [dict(f, quoted=True) if quoted and f["mode"] == "ann" else f for f in b["fields"]]
+                    vs.append(mark_unresolved({"future": future, "scope": scope, "fields": fields}))
+        c["variants"] = vs
+        cases.append(c)
+    return cases
+
+
 def gen_cases(rng, tier, n):
     return (directed_cases(rng, tier) + single_arg_cases(rng, tier) + default_cases(rng, tier)
-            + factory_cases(rng, tier) + struct_cases(rng, tier)
+            + factory_cases(rng, tier) + struct_cases(rng, tier) + scope_cases(rng, tier)
             + [gen_case(rng, tier, i) for i in range(n)])
 
 
 # ------------------------------------------------------------------ real code
 
 _MOD_COUNTER = [0]
+MOD_DIR = os.path.join(os.path.dirname(os.path.dirname(os.path.dirname(os.path.abspath(__file__)))), "work",
+                       f"c13_mods_{os.getpid()}")
 
 
 def define(v):
@@ -1073,7 +1170,21 @@ def define(v):
     for clear in getattr(typing, "_cleanups", []):
         clear()
     try:
-        exec(compile(src, modname + ".py", "exec"), mod.__dict__)  # pylint: disable=exec-used
+        if v.get("scope", "module") != "module" or _MOD_COUNTER[0] % 7 == 0:
+            # a real module: written to disk (git-ignored work/) and imported through the import machinery
+            os.makedirs(MOD_DIR, exist_ok=True)
+            path = os.path.join(MOD_DIR, modname + ".py")
+            with open(path, "w", encoding="utf-8") as fh:
+                fh.write(src)
+            try:
+                spec = importlib.util.spec_from_file_location(modname, path)
+                mod = importlib.util.module_from_spec(spec)
+                sys.modules[modname] = mod
+                spec.loader.exec_module(mod)
+            finally:
+                os.remove(path)
+        else:
+            exec(compile(src, modname + ".py", "exec"), mod.__dict__)  # pylint: disable=exec-used
         return mod.K, modname
     except BaseException:
         sys.modules.pop(modname, None)
@@ -1194,7 +1305,8 @@ def line(case, impl):
     if case.get("oracle_only"):
         return None
     return {"suite": "elab", "re": case.get("re", []),
-            "variants": [{"future": v["future"], "fields": v["fields"]} for v in case["variants"]]}
+            "variants": [{"future": v["future"], "scope": v.get("scope", "module"), "fields": v["fields"]}
+                         for v in case["variants"]]}
 
 
 # ------------------------------------------------------------------ judging
@@ -1227,12 +1339,17 @@ def correspondence(case, impl, model):
         ferrs = [f["res"]["err"] for f in mv["fields"] if "err" in f["res"]]
         if any(e.startswith(OUT_OF_MODEL) for e in ferrs):
             continue
-        where = f"variant {i}: {json.dumps([field_source(f)[0] for f in v['fields']])} future={v['future']}"
+        where = (f"variant {i}: {json.dumps([field_source(f)[0] for f in v['fields']])} future={v['future']} "
+                 f"scope={v.get('scope', 'module')}")
         for f, mf in zip(v["fields"], mv["fields"]):
             text = iv.get("ann_text", {}).get(f["name"])
             if text is not None:
-                if text != field_source(f)[1]:
-                    return f"{where}: stored annotation text {text!r} != rendered {field_source(f)[1]!r}"
+                want_text = field_source(f)[1]
+                if f.get("quoted") and v["future"]:
+                    want_text = repr(want_text)      # the future import stores the text OF the string literal
+                if text != want_text:
+                    return f"{where}: stored annotation text {text!r} != rendered {want_text!r}"
+                text = field_source(f)[1]
                 if len(text) != mf["annLen"]:
                     return f"{where}: annotation text {text!r} has length {len(text)}, model computed {mf['annLen']}"
         if "err" in mcls:
@@ -1262,10 +1379,12 @@ def field_features(case, model, i):
     return out
 
 
-PRIORITY = ["falsy-default-kw", "typing-union-duplicate", "typing-union-flattened"]
+PRIORITY = ["quoted-under-future-import", "quoted-annotation-50", "string-annotation-enclosing-scope",
+            "falsy-default-kw", "typing-union-duplicate", "typing-union-flattened"]
 
 CAUSES = {
-    "definition-error": ["falsy-default-kw"],
+    "definition-error": ["string-annotation-enclosing-scope", "falsy-default-kw"],
+    "field-dropped": ["quoted-under-future-import", "quoted-annotation-50"],
     "error-class-differs": ["typing-union-duplicate"],
 }
 
@@ -1324,7 +1443,8 @@ def oracle(case, impl, model):
         if not all(documented(f) for f in v["fields"]):
             continue
         feats = field_features(case, model, i)
-        srcs = json.dumps([field_source(f)[0] for f in v["fields"]]) + (" [future]" if v["future"] else "")
+        srcs = (json.dumps([field_source(f)[0] for f in v["fields"]]) + (" [future]" if v["future"] else "")
+                + (f" [in {v['scope']} scope]" if v.get("scope", "module") != "module" else ""))
         if i > 0:
             diff = compare_variants(ref, iv)
             if diff and diff[0] == "definition-error-class" and (
